@@ -1,6 +1,7 @@
 from __future__ import annotations
 
 import ast
+import copy
 import functools
 import inspect
 import itertools
@@ -323,6 +324,9 @@ class FormulaMaterializer(metaclass=FormulaMaterializerMeta):
             overrides: dict[str, Any] = {
                 "materializer": self.REGISTER_NAME,
                 "materializer_params": self.params,
+                # Never share (mutable) state with the incoming spec.
+                "transform_state": copy.deepcopy(model_spec.transform_state),
+                "encoder_state": copy.deepcopy(model_spec.encoder_state),
             }
 
             if model_spec.output is None:
